@@ -17,6 +17,7 @@ pub mod c21;
 pub mod c26;
 pub mod c22;
 pub mod c34;
+pub mod c27desc;
 pub mod c29;
 pub mod c30;
 pub mod c05;
